@@ -2,7 +2,7 @@
    conversion state machine: nodes without an adapter are only re-stamped and stay valid. *)
 From Coq Require Import ZArith List Bool String Lia.
 Import ListNotations.
-Require Import OV.Gen.VersionTables OV.Gen.VersionSchemas OV.Version.Model OV.Version.Adapters OV.Version.Schema
+Require Import OV.Gen.VersionTables OV.Gen.VersionSchemas OV.Gen.VersionDocSteps OV.Version.Model OV.Version.Adapters OV.Version.Schema
                OV.Version.Std OV.Version.ConvertProofs OV.Version.SchemaProofs OV.Version.SchemaStd.
 Local Open Scope Z_scope.
 
@@ -165,3 +165,18 @@ Lemma native_function_opset_ignored : forall fx, exists M M' f',
   forallb (fun n' => valid_at schema_table (n_op n') 21 (vnode_of n' dft_info)) (f_nodes f') = false /\
   map strip (f_nodes f') = [strip dft_axis1].
 Proof. intros [[] []]; exists w_func_opset; eexists; eexists; vm_compute; repeat split; reflexivity. Qed.
+
+(* ---------------------------------------------------------------- documented semantics *)
+Lemma doc_behavioural_exact : behavioural_unadapted registry_keys doc_steps = doc_behavioural_exceptions.
+Proof. vm_compute. reflexivity. Qed.
+
+(* every step classified behavioural has an adapter or is a listed exception; all the others are widening / neutral
+   attribute / editorial *)
+Lemma doc_steps_obligation : forall op v c, In (op, v, c) doc_steps ->
+  c <> DBehavioural \/ adapted_at registry_keys op (v - 1) = true \/ In (op, v) doc_behavioural_exceptions.
+Proof.
+  intros op v c H. destruct c; try (left; discriminate). right.
+  destruct (adapted_at registry_keys op (v - 1)) eqn:E; [now left|right].
+  rewrite <- doc_behavioural_exact. unfold behavioural_unadapted. apply in_flat_map.
+  exists (op, v, DBehavioural). split; [exact H|]. cbn [is_behavioural]. rewrite E. now left.
+Qed.
